@@ -574,12 +574,12 @@ def _class_source(case, params):
     return "\n".join(lines) + "\n"
 
 
-def _fn_source(case, params=None):
+def _fn_source(case, params=None, prelude=True):
     params = case["params"] if params is None else params
     if case.get("klass"):
         return _class_source(case, params)
     body = "    return [" + ", ".join(f"({p['name']!r}, {p['name']})" for p in params) + "]"
-    src = [PRELUDE, f"def _impl({_sig_source(params)}):"]
+    src = [PRELUDE if prelude else "", f"def _impl({_sig_source(params)}):"]
     if case["doc"]:
         src.append(_doc_source(params))
     src.append(body)
@@ -612,8 +612,33 @@ def _eq_source(fields_params, positional):
 
 
 def _j(v):
-    from implutil import canon
-    return json.dumps(canon(v), sort_keys=True, separators=(",", ":"))
+    """Canonical JSON of a value.  Python type identity survives: bool/int, tuple/list (canon's tags), the declared Enum class
+    (canon marks a same-named other class once set_current_ns is in force) and - here - the declared dataclass class."""
+    import dataclasses
+
+    import implutil
+    c = implutil.canon(v)
+
+    def foreign(x):
+        if dataclasses.is_dataclass(x) and not isinstance(x, type):
+            ns = implutil.CURRENT_NS
+            return ns is not None and ns.get(type(x).__name__) is not type(x)
+        if isinstance(x, (list, tuple, set, frozenset)):
+            return any(foreign(y) for y in x)
+        if isinstance(x, dict):
+            return any(foreign(y) for y in x.values())
+        return False
+    if foreign(v):
+        c = {"t": "not-the-declared-dataclass-class", "v": c}
+    return json.dumps(c, sort_keys=True, separators=(",", ":"))
+
+
+def _stream(r):
+    """Where a rejection / --help wrote: err, out, both, none (None for anything that is not an exit)."""
+    if r[0] != "exit":
+        return None
+    e, o = bool(r[2].strip()), bool(r[3].strip())
+    return "both" if e and o else "err" if e else "out" if o else "none"
 
 
 def _short(r):
@@ -628,16 +653,22 @@ def run_impl(cases):
     import functools
     import inspect
 
-    from implutil import outcome_of, reset_simple_parsing_state
+    import implutil
+    from implutil import outcome_of
 
     out = []
     for case in cases:
-        reset_simple_parsing_state()
         log = []
         ns = {"__name__": "c20_generated",
               "_HOOK": lambda a, k, log=log: log.append(([_j(x) for x in a], [[n, _j(v)] for n, v in k.items()]))}
+
+        def reset_simple_parsing_state(ns=ns):
+            implutil.reset_simple_parsing_state()
+            implutil.set_current_ns(ns)     # the classes this case declares: values must be instances / members of THESE
+        reset_simple_parsing_state()
         exec(compile(_fn_source(case), "<c20>", "exec", dont_inherit=True), ns)
         impl = ns["_impl"]
+        notes = {"msg": "", "streams": [None, None]}
 
         def make_stub(impl=impl, log=log):
             @functools.wraps(impl)
@@ -663,12 +694,19 @@ def run_impl(cases):
             def go():
                 obj = sp.parse(eq, args=list(argv), dest="args", add_config_path_arg=False)
                 return [[p["name"], _j(getattr(obj, p["name"]))] for p in fields_params]
-            return _short(outcome_of(go))
+            r = outcome_of(go)
+            notes["streams"][0] = _stream(r)
+            return _short(r)
 
         def finish(r):
+            notes["streams"][1] = _stream(r)
+            if r[0] == "raise":
+                notes["msg"] = r[2]
             r = _short(r)
             if r[0] == "ok":
                 try:
+                    if case.get("klass") and not isinstance(r[1], impl):
+                        raise TypeError("not an instance of the target class")
                     pairs = list(getattr(r[1], "_bound", r[1]))
                     r = ["ok", [[k, _j(v)] for k, v in pairs]]
                 except Exception as e:  # the stub's return value was replaced by something else
@@ -696,12 +734,12 @@ def run_impl(cases):
             reset_simple_parsing_state()
             r = finish(outcome_of(lambda: main(f, args=list(case["argv"]))(*xp, **xk)))
             out.append(dict(defaults=defaults, expected=expected, ncalls=len(log), call=_call(log), result=r, inferred=[],
-                            aliased=sorted(set(aliased)),
+                            aliased=sorted(set(aliased)), msg=notes["msg"], streams=notes["streams"],
                             xpos=[_j(v) for v in xp], xkw=[[k, _j(v)] for k, v in xk.items()]))
             continue
 
         if case["mode"] == "pair":
-            out.append(_run_pair(case, ns, plain, finish))
+            out.append(dict(_run_pair(case, ns, plain, finish, reset_simple_parsing_state), msg=notes["msg"], streams=notes["streams"]))
             continue
 
         # ---- config_for ----
@@ -737,6 +775,8 @@ def run_impl(cases):
             else:
                 session_obs.append(_short(r))
                 labels.append(None)
+                if not notes["msg"] and len(labels) == 1:
+                    notes["msg"] = r[2] if r[0] == "raise" else ""
         req0 = case["session"][0]
         kept = [dict(p, default=_eff_default_src(p, req0["over"]), mut=p["mut"] and _eff_default_src(p, req0["over"]) == p["default"],
                      eq_ann=_inferred(p, req0["over"]))
@@ -748,7 +788,8 @@ def run_impl(cases):
                     xpos=[_j(v) for v in cp], xkw=[[k, _j(v)] for k, v in ck.items()])
         cls0 = labels[0]
         if cls0 is None:
-            out.append(dict(base, fields=session_obs[0], ncalls=0, call=None, result=session_obs[0]))
+            out.append(dict(base, fields=session_obs[0], ncalls=0, call=None, result=session_obs[0], msg=notes["msg"],
+                            streams=notes["streams"]))
             continue
         import dataclasses
         import typing
@@ -792,25 +833,26 @@ def run_impl(cases):
         if cp:
             alias_scope.clear()
         r = finish(outcome_of(go))
-        out.append(dict(base, fields=["ok", flds], ncalls=len(log), call=_call(log), result=r, aliased=sorted(set(aliased))))
+        out.append(dict(base, fields=["ok", flds], ncalls=len(log), call=_call(log), result=r, aliased=sorted(set(aliased)),
+                        msg=notes["msg"], streams=notes["streams"]))
     return out
 
 
-def _run_pair(case, ns0, plain, finish):
+def _run_pair(case, ns0, plain, finish, reset_simple_parsing_state):
     import dataclasses
     import functools
     import inspect
 
     import simple_parsing as sp
     import simple_parsing.helpers.partial as partial_mod
-    from implutil import outcome_of, reset_simple_parsing_state
+    from implutil import outcome_of
 
     partial_mod._autogenerated_config_classes.clear()   # a registry keyed by class NAME, shared by the whole process
     log = []
     fns, defaults = [], []
     for k, params in enumerate((case["params"], case["params2"])):
-        ns = {}
-        exec(compile(_fn_source(case, params), "<c20-pair>", "exec", dont_inherit=True), ns)
+        ns = dict(ns0)       # the same Color / Cfg / FCfg classes for both callables and for the equivalent dataclass
+        exec(compile(_fn_source(case, params, prelude=False), "<c20-pair>", "exec", dont_inherit=True), ns)
         impl = ns["_impl"]
 
         def make_stub(impl=impl, k=k):
@@ -888,6 +930,9 @@ def py_spec(case, obs):
                 f"(or the signature default changed when the received value was mutated)")
     if obs["ncalls"] > 1:
         return f"the callable was invoked {obs['ncalls']} times"
+    st = obs.get("streams") or [None, None]
+    if exp[0] == "exit" and obs["result"] == exp and st[0] != st[1]:
+        return f"the rejection / help text goes to {st[1]}, the plain parse writes it to {st[0]}"
     if case["mode"] == "main":
         if obs["xpos"] or obs["xkw"]:
             return None  # run-time arguments: the property is silent
@@ -910,7 +955,14 @@ def py_spec(case, obs):
         return None
     if case["mode"] == "pair":
         return _pair_spec(case, obs)
-    return _cf_spec(params, case["session"], obs)
+    # independent checks; one that is NOT a listed finding is reported first, so that a listed finding present in the same
+    # case cannot hide it
+    reasons = [r for r in (_cf_spec(params, case["session"], obs, session=False), _session_reason(case["session"], obs)) if r]
+    known = _known_sigs()
+    for r in reasons:
+        if signature(case, obs, r) not in known:
+            return r
+    return reasons[0] if reasons else None
 
 
 def _pair_spec(case, obs):
@@ -949,13 +1001,33 @@ def _pair_spec(case, obs):
     return None
 
 
-def _cf_spec(params, sess, obs, check_call=True):
+def _session_reason(sess, obs):
+    bad = [(i, j) for i in range(len(sess)) for j in range(i + 1, len(sess))
+           if _req_equal(sess[i], sess[j]) and obs["session"][i][0] == "ok" and obs["session"][j][0] == "ok"
+           and obs["session"][i][1] != obs["session"][j][1]]
+    bad.sort(key=lambda ij: sess[ij[0]]["ignore"][0] == "list")     # hashable arguments first: that is never the known finding
+    if bad:
+        i, j = bad[0]
+        return f"config_for called twice (requests {i} and {j}) with the same arguments {sess[i]} returned two different classes"
+    return None
+
+
+def _known_sigs():
+    import os
+    import re
+    path = os.path.join(os.path.dirname(os.path.dirname(os.path.dirname(os.path.abspath(__file__)))), "KNOWN_FINDINGS.txt")
+    try:
+        return set(re.findall(r"^known:\s+property=C20\s+sig=(\S+)", open(path).read(), re.M))
+    except OSError:
+        return set()
+
+
+def _cf_spec(params, sess, obs, check_call=True, session=True):
     exp = obs.get("expected")
-    for i in range(len(sess)):
-        for j in range(i + 1, len(sess)):
-            if _req_equal(sess[i], sess[j]) and obs["session"][i][0] == "ok" and obs["session"][j][0] == "ok" \
-                    and obs["session"][i][1] != obs["session"][j][1]:
-                return f"config_for called twice with the same arguments {sess[i]} returned two different classes"
+    if session:
+        r = _session_reason(sess, obs)
+        if r:
+            return r
     req0 = sess[0]
     if obs["fields"][0] != "ok":
         return f"config_for{req0} ends with {obs['fields']}"
@@ -1032,32 +1104,50 @@ def signature(case, obs, reason):
         return "partial:class-of-another-callable"
     if "the same callable got two different classes" in reason:
         return "partial:uncached"
+    if reason.startswith("deriving the config class of callable"):
+        return "partial:derivation-failed:" + reason.rsplit("'", 2)[-2]
     if case["mode"] == "pair":
         tag = "config_for"
         if reason.startswith("class derived for callable"):
             return "partial:wrong-fields"
+    if reason.startswith("the rejection / help text goes to"):
+        return f"{tag}:exit-stream"
     if "received the signature's default object itself" in reason:
         return f"{tag}:container-default-aliased"
     if reason.startswith("inferred type"):
         return f"{tag}:wrong-inferred-type"
     if "the parameter is annotated" in reason:
         return f"{tag}:field-type-is-not-the-parameter-annotation"
+    import re
+    msg = obs.get("msg", "")
     if "two different classes" in reason:
-        lists = any(r["ignore"][0] == "list" for r in case.get("session", []))
-        return f"{tag}-uncached:" + ("unhashable-ignore_args" if lists else "hashable-args")
+        # evidence: the very pair of requests that disagreed passed ignore_args as a LIST (unhashable -> cache bypassed)
+        return f"{tag}-uncached:" + ("unhashable-ignore_args" if "'ignore': ['list'," in reason else "hashable-args")
     if obs["call"] is None and res[0] == "raise":
-        if res[1] == "ValueError" and any(p["mut"] for p in params):
-            # only an unhashable default of another kind (a dataclass instance) is a known finding; a list/dict/set default
-            # failing again would be a regression of fix 4e8d91f / 91c405f and must not hide behind it
-            other = any(p["mut"] and p["ty"] not in ("list",) for p in params)
-            return f"{tag}-setup:ValueError:" + ("dataclass-instance-default" if other else "list-dict-set-default")
+        if res[1] == "ValueError":
+            # evidence: dataclasses' own message, naming the class of the default and the field; the named field must be a
+            # parameter whose default is of that kind.  Any other ValueError at set-up is a different defect.
+            m = re.match(r"mutable default <class '(?:[\w.]*\.)?(\w+)'> for field (\w+) is not allowed: use default_factory", msg)
+            byname = {p["name"]: p for p in params}
+            if m and m.group(2) in byname and byname[m.group(2)]["mut"]:
+                p = byname[m.group(2)]
+                if p["ty"] == "dc" and m.group(1) == "Cfg":
+                    return f"{tag}-setup:ValueError:dataclass-instance-default"
+                if p["ty"] == "list" and m.group(1) == "list":
+                    return f"{tag}-setup:ValueError:list-dict-set-default"      # regression of fix 4e8d91f / 91c405f
+            return f"{tag}-setup:ValueError:other-cause"
         if res[1] == "TypeError" and any(p["ty"] == "bool" for p in params) and case["mode"] == "main":
             return f"{tag}-setup:TypeError:bool-param"
         if obs["expected"][0] == "ok":
             return f"{tag}-setup:{res[1]}:other"
-    if case["mode"] == "cf" and res[0] == "raise" and res[1] == "TypeError" and obs["fields"][0] == "ok" \
-            and any(p["kind"] == "po" and p["name"] in [n for n, _ in obs["fields"][1]] for p in params):
-        return f"{tag}-call:TypeError:positional-only-field-passed-by-keyword"
+    if case["mode"] == "cf" and res[0] == "raise" and res[1] == "TypeError" and obs["fields"][0] == "ok" and obs["call"] is not None:
+        # evidence: the callable WAS invoked, with the positional-only fields among the keywords, and CPython's message
+        # names exactly those parameters
+        po_fields = sorted(p["name"] for p in params if p["kind"] == "po" and p["name"] in [n for n, _ in obs["fields"][1]]
+                           and p["name"] in [k for k, _ in obs["call"]["kw"]])
+        m = re.search(r"got some positional-only arguments passed as keyword arguments: '([\w, ]+)'$", msg)
+        if po_fields and m and sorted(m.group(1).split(", ")) == po_fields:
+            return f"{tag}-call:TypeError:positional-only-field-passed-by-keyword"
     if "keyword arguments" in reason or "positional arguments" in reason:
         return f"{tag}:wrong-arguments-passed"
     if "parameters received" in reason or "every parameter has a value" in reason:
